@@ -104,7 +104,7 @@ Proof.
   unfold left_child, right_child in *. lia.
 Qed.
 
-Global Opaque parent.
+Local Opaque parent.
 
 (* index transposition *)
 Definition sw (a b q : nat) : nat := if q =? a then b else if q =? b then a else q.
